@@ -97,6 +97,29 @@ def hinted_bytes(R, n, base=None):
     return bytes(m)
 
 
+def des_ecb(k8, block):
+    """single DES on one block by the `cryptography` library (independent of the code under test)"""
+    from cryptography.hazmat.primitives.ciphers import Cipher, algorithms, modes
+    import warnings
+    with warnings.catch_warnings():
+        warnings.simplefilter("ignore")
+        return Cipher(algorithms.TripleDES(k8), modes.ECB()).encryptor().update(block)
+
+
+def cbc_fixed_point_message(R, k8, nblocks, at=None, value=bytes(8)):
+    """`nblocks` 8-byte blocks such that, in a CBC pass under `k8` from a zero IV, the input of the cipher at block
+    `at` (chaining value xor plaintext block) is `value` — all zero by default: the plaintext block *equals* the
+    chaining value there.  A relation between the key and two neighbouring parts of the message that uniformly random
+    contents never have."""
+    at = R.randrange(1, nblocks) if at is None and nblocks > 1 else (at or 0)
+    blocks = []; h = bytes(8)
+    for i in range(nblocks):
+        b = bytes(x ^ y for x, y in zip(h, value)) if i == at else R.randbytes(8)
+        blocks.append(b)
+        h = des_ecb(k8, bytes(x ^ y for x, y in zip(h, b)))
+    return b"".join(blocks)
+
+
 def hint_grid(R, cap=4000):
     """a bounded, systematic list of byte strings built from the hinted patterns: every pattern at the start and at the
     end of every small hinted size (and of sizes one block around it), the rest zero / random — and when at most one
@@ -192,6 +215,19 @@ class G:
 
     def fresh_key(self, n=16):
         return self.R.randbytes(n)
+
+    def key24(self):
+        """a triple-length key in every component-equality pattern (K|K|K, K|K|K3, K1|K2|K1, K1|K2|K2, K1|K2|K3), the
+        repeated component now and then differing in parity bits only"""
+        R = self.R
+        a, b, c = R.randbytes(8), R.randbytes(8), R.randbytes(8)
+        pat = R.choice(["aaa", "aab", "aba", "aba", "abb", "abc", "abc"])
+        comp = {"a": a, "b": b, "c": c}
+        parts = [comp[ch] for ch in pat]
+        if R.random() < .2:
+            i = R.randrange(3)
+            parts[i] = bytes(x ^ 1 for x in parts[i])
+        return b"".join(parts)
 
     def structured16(self):
         """16 bytes for an IV / key position: usually one of the structured values, else random"""
@@ -305,6 +341,8 @@ class G:
         return self.R.randbytes(n)
 
     def digits(self, n):
+        if 12 <= n <= 19 and self.R.random() < .35:
+            return traffic.card_number(self.R, n)         # check digit valid, zero-filled, or PAN + sequence number
         d = "".join(self.R.choice("0123456789") for _ in range(n))
         if HINTS and n and self.R.random() < 0.3 and (HINTS.digit_strs or HINTS.byte_values):
             R = self.R
